@@ -138,7 +138,11 @@ def make(case, decorated):
     ns.update(cabc=cabc, typing=typing)
     annsrc = {'none': '', 'Generator': ' -> cabc.Generator[int, object, object]', 'Iterator': ' -> cabc.Iterator[int]',
               'Iterable': ' -> typing.Iterable[int]', 'AsyncGenerator': ' -> cabc.AsyncGenerator[int, object]',
-              'AsyncIterator': ' -> cabc.AsyncIterator[int]', 'int': ' -> int', 'str': ' -> str'}[ann]
+              'AsyncIterator': ' -> cabc.AsyncIterator[int]', 'int': ' -> int', 'str': ' -> str',
+              # every spelling of a coroutine's return hint, incl. "never returns" and the Coroutine[...] wrapper form
+              'NoReturn': ' -> typing.NoReturn', 'Never': ' -> typing.Never', 'CoroInt': ' -> cabc.Coroutine[object, object, int]',
+              'CoroNoReturn': ' -> cabc.Coroutine[object, object, typing.NoReturn]', 'OptInt': ' -> typing.Optional[int]',
+              'Any': ' -> typing.Any', 'None': ' -> None'}[ann]
     lines = render(case['body'], kind)
     if kind != 'coro' and not any('yield' in l for l in lines):
         lines.append('    yield 9')
@@ -259,7 +263,8 @@ def _case(draw, tier):
     body = draw(stmts(draw(st.sampled_from([0, 1, 1, 2])), kind))
     ann = draw(st.sampled_from({'gen': ['none', 'Generator', 'Generator', 'Iterator', 'Iterable'],
                                 'agen': ['none', 'AsyncGenerator', 'AsyncGenerator', 'AsyncIterator'],
-                                'coro': ['none', 'int', 'int', 'str']}[kind]))
+                                'coro': ['none', 'int', 'int', 'str', 'NoReturn', 'Never', 'CoroInt', 'CoroNoReturn', 'OptInt', 'Any',
+                                         'None']}[kind]))
     caught = handler_names(body)
     # exceptions the body has handlers for are thrown preferentially (a thrown exception nobody catches only ends the object)
     ops_s = OPS if not caught else st.one_of(OPS, OPS, st.sampled_from(caught).map(lambda e: ['throw', e]))
@@ -300,7 +305,18 @@ def run_case(case):
     def violates(v):
         if kind != 'coro':
             return False
-        return (case['ann'] == 'int' and not isinstance(v, int)) or (case['ann'] == 'str' and not isinstance(v, str))
+        ann = case['ann']
+        if ann in ('int', 'CoroInt'):
+            return not isinstance(v, int)
+        if ann == 'str':
+            return not isinstance(v, str)
+        if ann in ('NoReturn', 'Never', 'CoroNoReturn'):
+            return True          # returning at all violates "never returns"
+        if ann == 'OptInt':
+            return v is not None and not isinstance(v, int)
+        if ann == 'None':
+            return v is not None
+        return False
     # step-wise comparison; a coroutine returning a value that violates its annotation must raise the return violation instead
     diff = None
     for idx, ((k1, r1), (k2, r2)) in enumerate(zip(t1, t2)):
